@@ -574,7 +574,18 @@ def decorators(fn):
     return out
 
 
+_LOCALS = {}
+
+
 def local_names(fn):
+    if fn in _LOCALS:
+        return _LOCALS[fn]
+    r = _local_names(fn)
+    _LOCALS[fn] = r
+    return r
+
+
+def _local_names(fn):
     a = fn.args
     out = {x.arg for x in a.posonlyargs + a.args + a.kwonlyargs}
     if a.vararg:
